@@ -238,6 +238,7 @@ def lazy_callback_rules(ctx: Ctx, rule: str) -> None:
             srcs.append(n.iter)
         elif isinstance(n, (ast.For, ast.AsyncFor)):
             srcs.append(n.iter)
+    srcs = [x.args[0] if isinstance(x, ast.Call) and dotted(x.func) in ("list", "tuple") and len(x.args) == 1 else x for x in srcs]
     ctx.check(len(srcs) == 1 and dotted(srcs[0]) == "self._callbacks", rule, f, "iteration over self._callbacks",
               "callbacks awaited one by one in list (registration) order",
               f"__execute_callbacks iterates {[unparse(s) for s in srcs]} instead of self._callbacks in list order", instance="__execute_callbacks: list order")
